@@ -310,7 +310,10 @@ def isIntDT : DataType → Bool
 
 mutual
 /-- `build_builder` on the parts of a field.  (Map: exactly two entry children; Dictionary: integer key type — the
-repo fixes 095456f / 7359431; the pinned code ignored further entry children and accepted any key type.) -/
+repo fixes 095456f / 7359431; the pinned code ignored further entry children and accepted any key type.  Union: dense
+only; Map: the entries field is not nullable — the repo fixes of round c03f; the pinned code ignored the union mode and the
+nullability of the entries field and built a dense union / a map with non-nullable entries, i.e. arrays of ANOTHER type
+than the field's.) -/
 def newDT (path : String) : DataType → Bool → Metadata → R B
   | .null, _, md =>
     if strategyOf md == some "UnknownVariant" then .ok (.unknownVariant path) else .ok (.null path 0)
@@ -363,11 +366,13 @@ def newDT (path : String) : DataType → Bool → Metadata → R B
       pure (.fixedSizeList path (metaOfField child) n.toNat 0 (newValidity nullable) 0 el)
   | .map (.mk _ (.struct (.cons _ (.cons _ (.cons _ _)))) _ _) _, _, _ =>
     fail "Map entries must have exactly two fields (keys and values)"
-  | .map (.mk ename (.struct (.cons kf (.cons vf .nil))) _ _) sorted, nullable, _ => do
+  | .map (.mk ename (.struct (.cons kf (.cons vf .nil))) false _) sorted, nullable, _ => do
     let kb ← newB (path ++ "." ++ childName ename ++ "." ++ childName kf.name) kf
     let vb ← newB (path ++ "." ++ childName ename ++ "." ++ childName vf.name) vf
     pure (.map path { entriesName := ename, sorted := sorted, keys := metaOfField kf, values := metaOfField vf }
       (newValidity nullable) [0] kb vb)
+  | .map (.mk _ (.struct (.cons _ (.cons _ .nil))) true _) _, _, _ =>
+    ctx [("field", path)] (fail "The entries field of a Map must not be nullable")
   | .map (.mk _ (.struct .nil) _ _) _, _, _ => fail "Missing keys field for map"
   | .map (.mk _ (.struct (.cons _ .nil)) _ _) _, _, _ => fail "Missing values field for map"
   | .map _ _, _, _ => fail "unexpected data type for map array"
@@ -380,9 +385,10 @@ def newDT (path : String) : DataType → Bool → Metadata → R B
       let vb ← newDT (path ++ ".value") v false []
       pure (.dictionary path kb vb [])
     else ctx [("field", path)] (fail "Dictionary keys must be integers")
-  | .union fs _, _, _ => do
+  | .union fs .dense, _, _ => do
     let bl ← newUnionFields path fs 0
     pure (.union path bl [] [] (List.replicate bl.length 0))
+  | .union _ .sparse, _, _ => ctx [("field", path)] (fail "Only dense unions are supported")
   | .interval _, _, _ => fail "Cannot build ArrayBuilder for data type Interval"
   | .runEndEncoded _ _, _, _ => fail "Cannot build ArrayBuilder for data type RunEndEncoded"
 def newB (path : String) : Field → R B
